@@ -95,6 +95,15 @@ type rd struct {
 	b   []byte
 	i   int
 	err error
+	// cls is the must-reject class of property C09 that the FIRST failure
+	// falls into ("a" the frame ends strictly inside a field, "b" a variable
+	// byte integer longer than four bytes, "c" a boolean property with a
+	// value other than 0/1, "d" an undefined property identifier), or "".
+	cls string
+	// begun: the field being read has already begun (a length prefix was
+	// consumed, or a property identifier announces a value), so that running
+	// out of bytes even with none left means the frame ends inside it.
+	begun bool
 }
 
 func (r *rd) fail(format string, a ...interface{}) {
@@ -102,12 +111,22 @@ func (r *rd) fail(format string, a ...interface{}) {
 		r.err = fmt.Errorf("offset %d: "+format, append([]interface{}{r.i}, a...)...)
 	}
 }
+func (r *rd) failClass(cls, format string, a ...interface{}) {
+	if r.err == nil {
+		r.cls = cls
+	}
+	r.fail(format, a...)
+}
 func (r *rd) need(n int, what string) bool {
 	if r.err != nil {
 		return false
 	}
-	if len(r.b)-r.i < n {
-		r.fail("%s: need %d bytes, %d left", what, n, len(r.b)-r.i)
+	if left := len(r.b) - r.i; left < n {
+		if left > 0 || r.begun {
+			r.failClass("a", "%s: need %d bytes, %d left", what, n, left)
+		} else {
+			r.fail("%s: need %d bytes, %d left", what, n, left)
+		}
 		return false
 	}
 	return true
@@ -138,7 +157,11 @@ func (r *rd) u32(what string) uint32 {
 }
 func (r *rd) bin(what string) []byte {
 	n := int(r.u16(what + " length"))
-	if !r.need(n, what) {
+	was := r.begun
+	r.begun = true // the length prefix has been consumed
+	ok := r.need(n, what)
+	r.begun = was
+	if !ok {
 		return nil
 	}
 	v := append([]byte(nil), r.b[r.i:r.i+n]...)
@@ -154,7 +177,14 @@ func (r *rd) vbi(what string) uint32 {
 		return 0
 	}
 	if err != nil {
-		r.fail("%s: %v", what, err)
+		switch {
+		case n == 4:
+			r.failClass("b", "%s: %v", what, err)
+		case n > 0 || r.begun:
+			r.failClass("a", "%s: %v", what, err) // ends on a continuation byte
+		default:
+			r.fail("%s: %v", what, err)
+		}
 		return 0
 	}
 	if len(VBI(v)) != n {
@@ -205,7 +235,7 @@ func (r *rd) props(m *model.Packet, scope int) {
 		id := r.u8("property identifier")
 		d, ok := PropTable[id]
 		if !ok {
-			r.fail("undefined property identifier 0x%02x", id)
+			r.failClass("d", "undefined property identifier 0x%02x", id)
 			return
 		}
 		if d.in&(1<<uint(scope)) == 0 {
@@ -229,11 +259,12 @@ func (r *rd) props(m *model.Packet, scope int) {
 			vbn []byte
 			kv  model.KV
 		)
+		r.begun = true // between the identifier and its value
 		switch d.typ {
 		case tByte:
 			vb = r.u8(d.name)
 			if d.flag && vb > 1 {
-				r.fail("%s: value %d is not 0 or 1", d.name, vb)
+				r.failClass("c", "%s: value %d is not 0 or 1", d.name, vb)
 			}
 		case tU16:
 			v16 = r.u16(d.name)
@@ -247,8 +278,10 @@ func (r *rd) props(m *model.Packet, scope int) {
 			vbn = r.bin(d.name)
 		case tPair:
 			kv.K = r.str(d.name + " key")
+			r.begun = false // a frame ending between key and value is not claimed
 			kv.V = r.str(d.name + " value")
 		}
+		r.begun = false
 		if r.err != nil {
 			return
 		}
@@ -357,25 +390,50 @@ func FrameLen(b []byte) (total int, hdr int, err error) {
 // packet occupying all of frame, per the list in property C02, and returns
 // the values it carries (an absent property is the zero value).
 func DecodeStrict(frame []byte) (model.Packet, error) {
-	var m model.Packet
+	m, _, err := decodeStrict(frame)
+	return m, err
+}
+
+// RejectClass returns "a", "b", "c" or "d" when frame is a complete frame
+// (type 1..15, correct reserved flags, remaining length equal to the bytes
+// that follow) that is valid up to a point where it falls into one of the
+// must-reject classes of property C09, and "" otherwise (valid frames, and
+// frames that are invalid for any other reason first).
+func RejectClass(frame []byte) string {
+	_, cls, _ := decodeStrict(frame)
+	return cls
+}
+
+func decodeStrict(frame []byte) (model.Packet, string, error) {
+	m, cls, err := decodeStrict0(frame)
+	if err == nil {
+		cls = ""
+	}
+	return m, cls, err
+}
+
+func decodeStrict0(frame []byte) (m model.Packet, cls string, err error) {
 	if len(frame) < 2 {
-		return m, fmt.Errorf("frame shorter than a fixed header")
+		return m, "", fmt.Errorf("frame shorter than a fixed header")
 	}
 	first := frame[0]
 	typ := first >> 4
 	flags := first & 15
 	if typ == 0 {
-		return m, fmt.Errorf("packet type 0 is reserved")
+		return m, "", fmt.Errorf("packet type 0 is reserved")
 	}
 	rl, n, err := DecodeVBI(frame[1:])
 	if err != nil {
-		return m, fmt.Errorf("remaining length: %v", err)
+		if n == 4 {
+			return m, "b", fmt.Errorf("remaining length: %v", err)
+		}
+		return m, "", fmt.Errorf("remaining length: %v", err)
 	}
 	if len(VBI(rl)) != n {
-		return m, fmt.Errorf("remaining length is not minimal")
+		return m, "", fmt.Errorf("remaining length is not minimal")
 	}
 	if len(frame) != 1+n+int(rl) {
-		return m, fmt.Errorf("remaining length %d but %d bytes follow", rl, len(frame)-1-n)
+		return m, "", fmt.Errorf("remaining length %d but %d bytes follow", rl, len(frame)-1-n)
 	}
 	m = model.New(typ)
 	switch typ {
@@ -384,31 +442,30 @@ func DecodeStrict(frame []byte) (model.Packet, error) {
 		m.QoS = (flags >> 1) & 3
 		m.Retain = flags&1 != 0
 		if m.QoS == 3 {
-			return m, fmt.Errorf("PUBLISH with both QoS bits set")
+			return m, "", fmt.Errorf("PUBLISH with both QoS bits set")
 		}
 	case model.PUBREL, model.SUBSCRIBE, model.UNSUBSCRIBE:
 		if flags != 2 {
-			return m, fmt.Errorf("%s: reserved flags must be 0010, got %04b", model.TypeNames[typ], flags)
+			return m, "", fmt.Errorf("%s: reserved flags must be 0010, got %04b", model.TypeNames[typ], flags)
 		}
 	default:
 		if flags != 0 {
-			return m, fmt.Errorf("%s: reserved flags must be 0000, got %04b", model.TypeNames[typ], flags)
+			return m, "", fmt.Errorf("%s: reserved flags must be 0000, got %04b", model.TypeNames[typ], flags)
 		}
 	}
 	r := &rd{b: frame[1+n:]}
 	switch typ {
 	case model.CONNECT:
 		m.ProtocolName = r.str("protocol name")
+		if r.err == nil && m.ProtocolName != "MQTT" {
+			r.fail("protocol name %q", m.ProtocolName)
+		}
 		m.ProtocolVersion = r.u8("protocol version")
+		if r.err == nil && m.ProtocolVersion != 5 {
+			r.fail("protocol version %d", m.ProtocolVersion)
+		}
 		cf := r.u8("connect flags")
-		m.KeepAlive = r.u16("keep alive")
 		if r.err == nil {
-			if m.ProtocolName != "MQTT" {
-				r.fail("protocol name %q", m.ProtocolName)
-			}
-			if m.ProtocolVersion != 5 {
-				r.fail("protocol version %d", m.ProtocolVersion)
-			}
 			if cf&1 != 0 {
 				r.fail("reserved connect flag set")
 			}
@@ -420,6 +477,7 @@ func DecodeStrict(frame []byte) (model.Packet, error) {
 				r.fail("will QoS 3")
 			}
 		}
+		m.KeepAlive = r.u16("keep alive")
 		m.CleanStart = cf&2 != 0
 		r.props(&m, model.CONNECT)
 		m.ClientID = r.str("client identifier")
@@ -522,8 +580,8 @@ func DecodeStrict(frame []byte) (model.Packet, error) {
 		r.fail("%d bytes left over after the packet", len(r.b)-r.i)
 	}
 	if r.err != nil {
-		return m, fmt.Errorf("%s: %v", model.TypeNames[typ], r.err)
+		return m, r.cls, fmt.Errorf("%s: %v", model.TypeNames[typ], r.err)
 	}
 	m.Normalize()
-	return m, nil
+	return m, "", nil
 }
